@@ -3,6 +3,7 @@
 package harness
 
 import (
+	"verif/lab/vdriver"
 	"bytes"
 	"encoding/hex"
 	"encoding/json"
@@ -144,6 +145,7 @@ func (f *Fake) RoundTrip(r *http.Request) (*http.Response, error) {
 		rq.Hash = p.Hash
 	}
 
+	fromSync := req.Method == "heights" && vdriver.CallerHas("node.(*Pegnetd).DBlockSync")
 	f.mu.Lock()
 	f.seq++
 	rq.Seq = f.seq
@@ -152,7 +154,10 @@ func (f *Fake) RoundTrip(r *http.Request) (*http.Response, error) {
 		f.dcount[rq.Height]++
 	}
 	if req.Method == "heights" {
-		f.idle++
+		// only the sync loop's own polls count (the API's get-sync-status asks the upstream node for its height too)
+		if fromSync {
+			f.idle++
+		}
 	} else {
 		f.idle = 0
 	}
